@@ -1021,7 +1021,7 @@ struct PCase {
     }
     std::string text() const {
         std::ostringstream s; s << "workers=" << workers << " fin=" << (fin ? "stop-race" : "drain");
-        for (size_t i = 0; i < progs.size(); i++) { s << " | T" << i << ":"; for (auto &o : progs[i]) s << " " << (o.k == 0 ? (o.a == 1 ? "job!std" : o.a == 2 ? "job!int" : o.a == 3 ? "job~" : "job") : o.k == 1 ? "cancel" : "yield"); }
+        for (size_t i = 0; i < progs.size(); i++) { s << " | T" << i << ":"; for (auto &o : progs[i]) s << " " << (o.k == 0 ? (o.a == 1 ? "job!std" : o.a == 2 ? "job!int" : o.a == 3 ? "job~" : "job") : o.k == 1 ? "cancel" : o.k == 3 ? "wait-idle" : "yield"); }
         return s.str();
     }
 };
@@ -1030,12 +1030,43 @@ static int count_threads() {
     while (struct dirent *e = readdir(d)) if (e->d_name[0] != '.') n++;
     closedir(d); return n;
 }
+static std::set<int> list_tids() {
+    std::set<int> r; DIR *d = opendir("/proc/self/task"); if (!d) return r;
+    while (struct dirent *e = readdir(d)) if (e->d_name[0] != '.') r.insert(atoi(e->d_name));
+    closedir(d); return r;
+}
+static bool slurp(std::string const &path, std::string &out) {
+    int fd = ::open(path.c_str(), O_RDONLY | O_CLOEXEC); if (fd < 0) return false;
+    char b[4096]; out.clear(); ssize_t n;
+    while ((n = ::read(fd, b, sizeof b)) > 0) out.append(b, n);
+    ::close(fd); return !out.empty();
+}
+// context switches (voluntary + involuntary) of one thread of this process; -1 when unreadable
+static long task_switches(int tid) {
+    std::string t; if (!slurp("/proc/self/task/" + std::to_string(tid) + "/status", t)) return -1;
+    size_t a = t.find("\nvoluntary_ctxt_switches:"), b = t.find("\nnonvoluntary_ctxt_switches:");
+    if (a == std::string::npos || b == std::string::npos) return -1;
+    return atol(t.c_str() + a + 25) + atol(t.c_str() + b + 28);
+}
+static char task_state(int tid) {
+    std::string t; if (!slurp("/proc/self/task/" + std::to_string(tid) + "/stat", t)) return 0;
+    size_t p = t.rfind(')'); return p == std::string::npos || p + 2 >= t.size() ? 0 : t[p + 2];
+}
+// Pool liveness without a clock.  The worker threads are known (the threads that appeared while the pool was constructed).  When every
+// producer has finished or is blocked waiting for results, the driver only observes, and a job whose post() has returned is still owed:
+// if every worker is in kernel state 'S' (blocked) with the same context-switch count before and after the state was read, in three
+// consecutive samples with identical counts and no progress recorded in between, each worker has been blocked without interruption
+// (a woken thread is 'R', one that ran and blocked again has switched).  Nobody is left who could wake them - condition waits of the pool
+// have no time-out, the producers wait for job bodies, the driver posts nothing - so the job can never run.  Anything else: keep waiting;
+// the wall-clock watchdog only yields inconclusive.
 struct PScn {
     PCase const &c;
-    struct J { int count = 0, pid = -1, variant = 0, spin = 0; bool cancel_ok = false; };
+    struct J { int count = 0, pid = -1, variant = 0, spin = 0, owner = 0; bool cancel_ok = false, after_idle = false; };
     std::mutex m; std::condition_variable cv;
     std::deque<J> js; std::vector<std::vector<int>> mine; std::set<int> ids;
-    std::string vsig, vmsg; bool abort = false; int arrived = 0, rdv_target = 0; bool rdv_release = false;
+    std::string vsig, vmsg; bool abort = false, stopped = false; int arrived = 0, rdv_target = 0; bool rdv_release = false;
+    int live = 0, waiting = 0; long progress = 0;
+    std::vector<int> workers; bool detector = false;
     std::unique_ptr<cppcms::thread_pool> pool;
     std::map<std::string, long> cls;
     explicit PScn(PCase const &cc) : c(cc) {}
@@ -1044,7 +1075,7 @@ struct PScn {
         int variant, spin;
         {
             std::lock_guard<std::mutex> l(m);
-            J &x = js[j]; x.count++; variant = x.variant; spin = x.spin;
+            J &x = js[j]; x.count++; variant = x.variant; spin = x.spin; progress++;
             if (x.count > 1) viol("pool:job-ran-twice", "job #" + std::to_string(j) + " executed " + std::to_string(x.count) + " times");
             if (x.cancel_ok) viol("pool:ran-after-successful-cancel", "job #" + std::to_string(j) + " executed although cancel() had returned true for it");
             cv.notify_all();
@@ -1053,15 +1084,61 @@ struct PScn {
         if (variant == 1) throw std::runtime_error("job failure");
         if (variant == 2) throw 42;
     }
+    bool workers_asleep() { for (int t : workers) if (task_state(t) != 'S') return false; return true; }
+    // all workers blocked, no context switch while looking; cur = their switch counts
+    bool sample_quiet(std::vector<long> &cur) {
+        cur.clear();
+        for (int t : workers) {
+            long c1 = task_switches(t); char st = task_state(t); long c2 = task_switches(t);
+            if (c1 < 0 || c2 < 0 || st != 'S' || c1 != c2) return false;
+            cur.push_back(c1);
+        }
+        return true;
+    }
+    std::string owed_job() {       // m held
+        for (size_t j = 0; j < js.size(); j++) if (js[j].pid >= 0 && !js[j].cancel_ok && js[j].count == 0) {
+            int st = 0, in = 0; for (auto &x : js) if (x.count) { if (x.variant == 1) st++; if (x.variant == 2) in++; }
+            return "job #" + std::to_string(j) + " (posted by T" + std::to_string(js[j].owner) + (js[j].after_idle ? " after it had seen the results of all its earlier jobs" : "") + ", post() returned id " +
+                   std::to_string(js[j].pid) + ") has not been started; before it " + std::to_string(st) + " job(s) threw a std::exception and " + std::to_string(in) + " threw an int";
+        }
+        return "";
+    }
+    // waits (m held on entry and exit) until done(); false: aborted, verdict reached or watchdog
+    bool monitor(std::unique_lock<std::mutex> &l, std::function<bool()> const &done, std::function<std::string()> const &owed, bool &inconclusive, int base_threads = -1) {
+        auto dl = std::chrono::steady_clock::now() + std::chrono::seconds(g_watchdog_s);
+        for (;;) {
+            if (done()) return true;
+            if (abort) return false;
+            if (detector && waiting == live && !owed().empty()) {
+                long p0 = progress; std::vector<long> ref, cur; bool quiet = true;
+                for (int k = 0; k < 3 && quiet; k++) {
+                    l.unlock(); quiet = sample_quiet(cur); l.lock();           // no lock held while looking: a worker blocked on m would have been released
+                    if (progress != p0 || abort || done()) { quiet = false; break; }
+                    if (k == 0) ref = cur; else if (cur != ref) quiet = false;
+                    if (quiet && k < 2) { cv.wait_for(l, std::chrono::milliseconds(3)); if (progress != p0) quiet = false; }
+                }
+                if (quiet && progress == p0 && !abort && !done()) {
+                    cls["liveness_verdicts"]++;
+                    viol("pool:job-never-run", owed() + "; every posting thread has finished or waits for results and all " + std::to_string(workers.size()) +
+                         " worker thread(s) stay blocked (state S, no context switch over three samples): nothing can wake them, the pool keeps running without ever executing it");
+                    return false;
+                }
+            }
+            if (base_threads > 0) { int now = count_threads(); if (now >= 0 && now < base_threads) { viol("pool:worker-thread-exited", "the process has " + std::to_string(now) + " threads, " + std::to_string(base_threads) + " before the jobs ran: a worker ended"); return false; } }
+            if (cv.wait_for(l, std::chrono::milliseconds(10)) == std::cv_status::timeout && std::chrono::steady_clock::now() > dl) { inconclusive = true; return false; }
+        }
+    }
     void producer(int p) {
+        bool after_idle = false;
         for (auto &o : c.progs[p]) {
-            { std::lock_guard<std::mutex> l(m); if (abort) return; }
+            { std::lock_guard<std::mutex> l(m); if (abort) break; }
             if (o.k == 0) {
                 int j;
-                { std::lock_guard<std::mutex> l(m); js.emplace_back(); j = (int)js.size() - 1; js[j].variant = o.a; js[j].spin = o.a == 3 ? o.b : 0; cls[o.a == 1 || o.a == 2 ? "job.throwing" : "job"]++; }
+                { std::lock_guard<std::mutex> l(m); js.emplace_back(); j = (int)js.size() - 1; js[j].variant = o.a; js[j].spin = o.a == 3 ? o.b : 0; js[j].owner = p; js[j].after_idle = after_idle;
+                  cls[o.a == 1 || o.a == 2 ? "job.throwing" : "job"]++; if (after_idle) cls["post_after_idle"]++; }
                 int id = pool->post([this, j] { job(j); });
                 std::lock_guard<std::mutex> l(m);
-                js[j].pid = id; mine[p].push_back(j);
+                js[j].pid = id; mine[p].push_back(j); progress++;
                 if (!ids.insert(id).second) viol("pool:duplicate-job-id", "post() returned id " + std::to_string(id) + " twice within one short run");
             } else if (o.k == 1) {
                 int j, id;
@@ -1072,47 +1149,62 @@ struct PScn {
                 }
                 bool r = pool->cancel(id);
                 std::lock_guard<std::mutex> l(m);
-                cls[r ? "cancel.true" : "cancel.false"]++;
+                cls[r ? "cancel.true" : "cancel.false"]++; progress++;
                 if (r) {
                     if (js[j].cancel_ok) viol("pool:cancel-true-twice", "cancel() returned true twice for job #" + std::to_string(j));
                     if (js[j].count > 0) viol("pool:ran-after-successful-cancel", "cancel() returned true for job #" + std::to_string(j) + " which had already been started");
                     js[j].cancel_ok = true; cv.notify_all();
                 }
+            } else if (o.k == 3) {
+                // results of all own earlier jobs seen, then give the workers the chance to go to sleep (state-based pacing, no verdict depends on it)
+                {
+                    std::unique_lock<std::mutex> l(m);
+                    auto seen = [this, p] { for (int j : mine[p]) if (!js[j].cancel_ok && js[j].count == 0) return false; return true; };
+                    waiting++; progress++; cls["wait_idle"]++;
+                    while (!seen() && !abort && !stopped) cv.wait(l);
+                    waiting--; progress++;
+                    if (abort || stopped) continue;
+                }
+                for (int i = 0; i < 200 && !workers_asleep(); i++) { struct timespec ts = {0, 100000}; nanosleep(&ts, nullptr); }
+                after_idle = true;
             } else for (int i = 0; i < o.a; i++) sched_yield();
         }
+        std::lock_guard<std::mutex> l(m); live--; progress++; cv.notify_all();
     }
     Outcome run() {
+        std::set<int> before = list_tids();
         int base0 = count_threads();
         pool.reset(new cppcms::thread_pool(c.workers));
         int base = count_threads();
+        for (int t : list_tids()) if (!before.count(t)) workers.push_back(t);
+        detector = !before.empty() && (int)workers.size() == c.workers && task_switches(workers[0]) >= 0 && task_state(workers[0]) != 0;
+        if (!detector) VR.cls("pool.liveness_detector_unavailable");
         mine.resize(c.progs.size());
         std::vector<std::thread> ps;
+        { std::lock_guard<std::mutex> l(m); live = (int)c.progs.size(); }
         for (size_t p = 0; p < c.progs.size(); p++) ps.emplace_back([this, p] { producer((int)p); });
         bool inconclusive = false;
         if (c.fin == 0) {
-            for (auto &t : ps) t.join();
             {
                 std::unique_lock<std::mutex> l(m);
-                auto dl = std::chrono::steady_clock::now() + std::chrono::seconds(g_watchdog_s);
-                auto all = [this] { for (auto &x : js) if (!x.cancel_ok && x.count == 0) return false; return true; };
-                while (!all() && !abort) if (cv.wait_until(l, dl) == std::cv_status::timeout) { inconclusive = !all(); break; }
+                auto owed = [this] { return owed_job(); };
+                // 1. the producers run their programs (they may wait for results on the way)   2. every job not cancelled has been started
+                if (monitor(l, [this] { return live == 0; }, owed, inconclusive))
+                    monitor(l, [this] { for (auto &x : js) if (!x.cancel_ok && x.count == 0) return false; return true; }, owed, inconclusive);
+                if (inconclusive) { abort = true; cv.notify_all(); }
             }
+            for (auto &t : ps) t.join();
             // a throwing job must not cost a worker: all workers can still be occupied at the same time
             bool run_rdv; { std::lock_guard<std::mutex> l(m); run_rdv = !abort && !inconclusive && base0 > 0 && base == base0 + c.workers; rdv_target = c.workers; }
             if (run_rdv) {
-                for (int i = 0; i < c.workers; i++) pool->post([this] {
-                    std::unique_lock<std::mutex> l(m); arrived++; cv.notify_all();
+                for (int i = 0; i < c.workers; i++) { pool->post([this] {
+                    std::unique_lock<std::mutex> l(m); arrived++; progress++; cv.notify_all();
                     while (arrived < rdv_target && !rdv_release) cv.wait(l);
-                });
+                }); std::lock_guard<std::mutex> l(m); progress++; }
                 std::unique_lock<std::mutex> l(m);
-                auto dl = std::chrono::steady_clock::now() + std::chrono::seconds(g_watchdog_s);
-                while (arrived < rdv_target) {
-                    if (cv.wait_for(l, std::chrono::milliseconds(20)) == std::cv_status::timeout) {
-                        int now = count_threads();
-                        if (now >= 0 && now < base) { viol("pool:worker-thread-exited", "the process has " + std::to_string(now) + " threads, " + std::to_string(base) + " before the jobs ran: a worker ended"); break; }
-                        if (std::chrono::steady_clock::now() > dl) { inconclusive = true; break; }
-                    }
-                }
+                monitor(l, [this] { return arrived >= rdv_target; },
+                        [this] { return arrived < rdv_target ? "only " + std::to_string(arrived) + " of " + std::to_string(rdv_target) + " jobs posted one after the other to an idle pool of " + std::to_string(rdv_target) +
+                                 " workers have been started (each of them waits for the others)" : std::string(); }, inconclusive, base);
                 rdv_release = true; cv.notify_all();
                 cls["rendezvous"]++;
             }
@@ -1120,6 +1212,7 @@ struct PScn {
         } else {
             for (int i = 0; i < c.stop_yield; i++) sched_yield();
             pool->stop();
+            { std::lock_guard<std::mutex> l(m); stopped = true; cv.notify_all(); }
             for (auto &t : ps) t.join();
         }
         pool.reset();
@@ -1131,20 +1224,23 @@ struct PScn {
             if (js[j].cancel_ok && js[j].count) return bad("pool:ran-after-successful-cancel", "job #" + std::to_string(j) + "\n  case: " + c.text());
         }
         if (inconclusive) { VR.inconclusive++; VR.cls("pool.watchdog"); return ok(); }
-        if (c.fin == 0) for (size_t j = 0; j < js.size(); j++) if (!js[j].cancel_ok && js[j].count != 1) return bad("pool:job-never-ran", "job #" + std::to_string(j) + "\n  case: " + c.text());
+        if (c.fin == 0) for (size_t j = 0; j < js.size(); j++) if (js[j].pid >= 0 && !js[j].cancel_ok && js[j].count != 1) return bad("pool:job-never-run", "job #" + std::to_string(j) + "\n  case: " + c.text());
         if (c.fin == 1) { long lost = 0; for (auto &x : js) if (!x.count && !x.cancel_ok) lost++; VR.cls("pool.pending_at_stop", lost); }
         return ok();
     }
 };
+static int pool_throwing(PCase const &c) { int n = 0; for (auto &p : c.progs) for (auto &o : p) if (o.k == 0 && (o.a == 1 || o.a == 2)) n++; return n; }
 static Outcome p_pool(PCase const &c) {
     note_case("pool", c);
     VR.eval();
     bool nt = c.fin == 1 || c.progs.size() > 1;
-    for (auto &p : c.progs) for (auto &o : p) if (o.k == 1 || (o.k == 0 && (o.a == 1 || o.a == 2))) nt = true;
+    for (auto &p : c.progs) for (auto &o : p) if (o.k == 1 || o.k == 3 || (o.k == 0 && (o.a == 1 || o.a == 2))) nt = true;
     { vr::CaseWriter w; c.encode(w); if (nt) VR.nontrivial(vr::fnv(w.str(), 172)); }
     VR.cls(std::string("pool.case.") + (c.fin ? "stop_race" : "drain")); VR.cls("pool.case.workers=" + std::to_string(c.workers));
+    if (pool_throwing(c) >= c.workers) VR.cls("pool.throwing_jobs>=workers");
     if (VR.want_sample()) VR.sample("pool: " + c.text().substr(0, 400));
     int reps = g_replay ? (int)vr::envl("C17_REPLAY_REPS", 120) : (int)vr::envl("C17_REPS", 1);
+    if (g_replay && reps > 30) reps = 30;
     for (int i = 0; i < reps; i++) { PScn s(c); Outcome o = s.run(); if (!o.ok()) return o; }
     return ok();
 }
@@ -1152,13 +1248,25 @@ static rc::Gen<PCase> gen_pool() {
     return rc::gen::exec([]() {
         PCase c; c.workers = *vr::range<int>(1, 5); c.fin = *rc::gen::weightedElement<int>({{4, 0}, {1, 1}}); c.stop_yield = *vr::range<int>(0, 200);
         int k = *vr::range<int>(1, 5); c.progs.resize(k);
+        int shaped = *vr::range<int>(0, 3) == 0;       // a third of the cases: >= workers throwing jobs, wait until idle, post again
         for (int p = 0; p < k; p++) {
+            if (shaped && p == 0) {
+                int nthrow = c.workers + *vr::range<int>(0, c.workers + 1);
+                for (int i = 0; i < nthrow; i++) { Op o; o.k = 0; o.a = *vr::range<int>(1, 3); c.progs[p].push_back(o); }
+                int rounds = *vr::range<int>(1, 3);
+                for (int r = 0; r < rounds; r++) {
+                    Op w; w.k = 3; c.progs[p].push_back(w);
+                    int more = *vr::range<int>(1, 5);
+                    for (int i = 0; i < more; i++) { Op o; o.k = 0; o.a = *rc::gen::weightedElement<int>({{4, 0}, {1, 1}, {1, 2}, {2, 3}}); o.b = *vr::range<int>(1, 20); c.progs[p].push_back(o); }
+                }
+                continue;
+            }
             int n = *vr::range<int>(1, 25);
             for (int i = 0; i < n; i++) {
-                Op o; o.k = *rc::gen::weightedElement<int>({{6, 0}, {4, 1}, {1, 2}});
+                Op o; o.k = *rc::gen::weightedElement<int>({{6, 0}, {4, 1}, {1, 2}, {1, 3}});
                 if (o.k == 0) { o.a = *rc::gen::weightedElement<int>({{5, 0}, {1, 1}, {1, 2}, {3, 3}}); o.b = *vr::range<int>(1, 30); }
                 else if (o.k == 1) { o.a = *rc::gen::weightedElement<int>({{3, p}, {1, *vr::range<int>(0, k)}}); o.b = *vr::range<int>(0, 32); }
-                else o.a = *vr::range<int>(1, 30);
+                else if (o.k == 2) o.a = *vr::range<int>(1, 30);
                 c.progs[p].push_back(o);
             }
         }
@@ -1267,6 +1375,16 @@ int main(int argc, char **argv) {
     if (!g_replay && (mode == "fdops" || mode == "fixed")) {
         vr::install_crash_hooks();
         bool good = true;
+        // pool grid: workers x throwing jobs {0, w-1, w, w+1, 2w} x exception kind x {post at once, post after the pool went idle}
+        if (mode == "fixed") for (int w = 1; w <= 4; w++) for (int ti = 0; ti < 5; ti++) for (int kind = 1; kind <= 2; kind++) for (int idle = 0; idle < 2; idle++) {
+            int nthrow = ti == 0 ? 0 : ti == 1 ? w - 1 : ti == 2 ? w : ti == 3 ? w + 1 : 2 * w;
+            PCase c; c.workers = w; c.progs.resize(1);
+            for (int i = 0; i < nthrow; i++) { Op o; o.k = 0; o.a = kind; c.progs[0].push_back(o); }
+            if (idle) { Op o; o.k = 3; c.progs[0].push_back(o); }
+            for (int i = 0; i < 3; i++) { Op o; o.k = 0; o.a = 0; c.progs[0].push_back(o); }
+            VR.cls("grid.pool.cases");
+            good = vr::run_direct("pool", c, p_pool) && good;
+        }
         // close + number re-use grid: reactor x close mode x direction of the closed wait x direction(s) of the new wait x raw / stream_socket
         if (mode == "fixed") for (int r = 1; r <= 3; r++) for (int m = 0; m < 4; m++) for (int od = 0; od < 2; od++) for (int nd = 0; nd < 3; nd++) for (int kd = 0; kd < 2; kd++) {
             LCase c; c.reactor = r; c.progs.resize(1); c.progs[0].resize(1);
